@@ -51,6 +51,7 @@ def _textok(s):
 XS = "http://www.w3.org/2001/XMLSchema"
 _KNOWN_ATTR_QNAME = known("C11-attribute-qname-rewrite")
 _KNOWN_DERIVED_TAIL = known("C11-derived-primitive-tail-lost")
+_KNOWN_NONS_MODEL = known("C11-nons-model-in-namespaced-wildcard")
 
 
 def _leaftext(s):
@@ -63,7 +64,8 @@ def _leaftext(s):
 def _gen(shape, n0, n1, n2, s0, s1, a0):
     """shape 0: leaf; 1: one child; 2: two children; 3: child with grandchild; 4: two children, first with a grandchild;
     5: leaf carrying xsi:type="xs:string" with the xs prefix declared on itself; 6: child whose attribute value LOOKS like a
-    QName (declared prefix on the element itself / undeclared prefix)."""
+    QName (declared prefix on the element itself / undeclared prefix); 7: nested element with a locally declared prefix in xsi:type;
+    8: an element bound by name to a typed model with a wildcard list (typed content inside generic / mixed content, followed by tail text)."""
     def leaf(name, text, tail=None, attrs=None):
         return mutate.Node(NAMES[name], attrs or {}, text if text != "" else None, tail if tail != "" else None)
 
@@ -77,6 +79,9 @@ def _gen(shape, n0, n1, n2, s0, s1, a0):
         root.text = None
         root.children = [mid]
         return root
+    if shape == 8:
+        # an element that resolves (by name, through the context) to a TYPED model owning a wildcard list, i.e. typed content nested in generic content
+        return mutate.Node("wl", {}, None, None, [mutate.Node("{urn:c}c", {}, s0 if s0 != "" else None), mutate.Node(NAMES[2 + n2 % 2], {ANAMES[a0 % 3]: "v"}, "t")])
     if shape == 6:
         val = ["x:y", "zz:" + s1, "q:thing"][a0 % 3]
         if a0 % 3 == 2 and _KNOWN_ATTR_QNAME:
@@ -223,8 +228,12 @@ def plan(tier):
     jobs = []
     quick = tier == "quick"
     for p_i, place in enumerate(("tree", "wild", "list", "mixed", "wild2")):
-        for shape in range(8):
+        for shape in range(9):
             for h_i, handler in enumerate(("native", "lxml")):
+                if shape == 8 and place not in ("mixed", "wild"):
+                    continue
+                if shape == 8 and place == "wild" and _KNOWN_NONS_MODEL:
+                    continue  # exactly the signature of the listed known finding (namespace-less model under a namespaced parent's wildcard)
                 if quick and (p_i + shape + h_i) % 2:
                     continue
                 if place == "tree" and shape == 5:
@@ -278,3 +287,13 @@ def derived_tail_witness():
     xml = ('<mixed xmlns:xs="http://www.w3.org/2001/XMLSchema" xmlns:xsi="http://www.w3.org/2001/XMLSchema-instance">'
            'a<c xsi:type="xs:string">t</c>TAIL</mixed>')
     return "TAIL" in XmlSerializer().render(XmlParser().from_string(xml, Mixed))
+
+
+def nons_model_witness():
+    """Known finding C11-nons-model-in-namespaced-wildcard through the public API."""
+    from xsdata.formats.dataclass.parsers import XmlParser
+    from xsdata.formats.dataclass.serializers import XmlSerializer
+
+    xml = '<wild xmlns="urn:a"><known>1</known><wl xmlns=""><c:c xmlns:c="urn:c"/></wl></wild>'
+    obj = XmlParser().from_string(xml, Wild)
+    return XmlParser().from_string(XmlSerializer().render(obj), Wild) == obj
